@@ -888,8 +888,29 @@ def trees_chains():
             yield (f"chain:{o1}{o2}:R", mk(o1, p, mk(o2, q, r)), {"chain", f"op{o1}", f"op{o2}"})
 
 
-def family_c02(tier, seed):
+def progs_negconst():
+    """a column bound to a negative constant (which the compiler inlines as a literal) under unary operators and on both sides of
+    every arithmetic / comparison operator: the emitted text must not run the signs together (`--` starts an SQL comment)"""
+    a = C("a")
     out = []
+    for k in (-3, -1):
+        n = C("n")
+        forms = [("neg", E("un", "-", n)), ("pos", E("un", "+", n)), ("negneg", E("un", "-", E("un", "-", n)))]
+        for op in ("+", "-", "*", "/", "%", "==", "<", ">="):
+            forms.append((f"R{op}", mk(op, a, n)))
+            forms.append((f"L{op}", mk(op, n, a)))
+            forms.append((f"Rneg{op}", mk(op, a, E("un", "-", n))))
+            forms.append((f"Lneg{op}", mk(op, E("un", "-", n), a)))
+        for tag, e in forms:
+            for mode in ("min", "full"):
+                prog = Prog([From("t"), Derive(n=L(k)), Select(v=e)], mode=mode)
+                prog.features = {"negconst", f"mode:{mode}"}
+                out.append((f"negconst:{k}:{tag}:{mode}", prog))
+    return out
+
+
+def family_c02(tier, seed):
+    out = list(progs_negconst())
     items = list(trees_pairs()) + list(trees_unary()) + list(trees_misc()) + list(trees_nulltests()) + list(trees_div_i())
     chains = list(trees_chains())
     if tier == "quick":
